@@ -57,6 +57,12 @@ def run(prog, rep, tier, cfg):
             okq = not C.ok_returns_from([cc.arms[arm]], blocked={uq[0].bb})
         rep.need('K7', 'withdraw:quota-charged-when-paying-third-party', okq, 'a positive withdrawal to a non-owner beneficiary always charges the quota', X.loc(C))
         # the amount component returned is the clamped one
+    # ---- quota is available strictly before the term's expiration epoch
+    BA = X.fn('beneficiary::BeneficiaryTerm::available', CR)
+    nz = [c.bb for c in BA.calls if (c.callee or '').endswith('::sub') or (c.defp or '').endswith('Sub::sub')]
+    X.guard('K6b', 'beneficiary-term:expiry-exclusive', BA, nz, m_rel('gt', ['F:BeneficiaryTerm.expiration'], ['P:2'], True, pure=True), 'quota is available only while expiration > current epoch', success_only=False)
+    a = prog.slicer.local(BA, 0)
+    rep.need('K10', 'beneficiary-term:remaining-quota', has_all(a, ['F:BeneficiaryTerm.quota', 'F:BeneficiaryTerm.used_quota', 'C:::sub', 'C:::max']), 'available = max(quota - used_quota, 0)', X.loc(BA))
     # ---- available balance = balance - locked - deposits - pledge - fee debt
     GA = X.fn('state::State::get_available_balance', CR)
     a = prog.narrow.local(GA, 0)
